@@ -31,7 +31,7 @@ func init() {
 var ircv3Escapes = map[string]string{"\\:": ";", "\\s": " ", "\\\\": "\\", "\\r": "\r", "\\n": "\n"}
 
 func runC01(c *Ctx) {
-	r, a := c.R, c.A
+	r := c.R
 	r.Rule("R1", "the constant pairs of the strings.NewReplacer applied to each raw tag in ParseLine equal the IRCv3 escape table (\\: ; \\s SP \\\\ \\ \\r CR \\n LF) and no pattern is a proper prefix of another")
 	r.Rule("R2", "every store to Line.Raw of the line ParseLine returns stores ParseLine's parameter itself")
 	r.Rule("R3", "every non-nil store to Line.Tags in ParseLine is dominated by the true edge of the first-byte == '@' test")
@@ -308,19 +308,14 @@ func runC01(c *Ctx) {
 	c.c01Accessors()
 
 	// ---- R5
-	var producer *ssa.Function
-	var sendOp ChanOp
-	for _, m := range a.Members {
-		for _, op := range ChanOps(m) {
-			if op.Kind == "send" && c.ChanMayBe(op.Chan, a.In) {
-				producer, sendOp = m, op
-			}
-		}
-	}
-	r.Anchor("R5", "receive goroutine with its send on the inbound queue", producer != nil)
-	if producer == nil {
+	pf := c.producerFrame()
+	r.Anchor("R5", "receive goroutine with its send on the inbound queue", pf != nil)
+	if pf == nil {
 		return
 	}
+	// the frame that parses and enqueues: the goroutine's own body, or the one helper it calls per line
+	producer, sendOp := pf.Frame, pf.Send
+	r.Funcs[c.FuncKey(pf.Member)] = true
 	r.Funcs[c.FuncKey(producer)] = true
 	var sent ssa.Value
 	if s, ok := sendOp.In.(*ssa.Send); ok {
@@ -351,6 +346,19 @@ func runC01(c *Ctx) {
 	r.Add("R5", "only-time-touched", c.InstrPos(call), c.FuncKey(producer), "between parse and enqueue only Line.Time is set", bad == "", bad)
 	// argument chain
 	arg := call.Call.Args[0]
+	condsFrom := call.Block()
+	helperConds := 0
+	if pr, isP := arg.(*ssa.Parameter); isP && pf.Via != nil && pr.Parent() == pf.Frame {
+		// the line is handed to the helper by the goroutine: continue with the argument at that call, and count the
+		// conditions inside the helper that decide whether the parser is reached at all (there must be none)
+		for i, q := range pf.Frame.Params {
+			if q == pr && i < len(pf.Via.Call.Args) {
+				arg = pf.Via.Call.Args[i]
+			}
+		}
+		helperConds = len(CondsAt(call.Block()))
+		condsFrom = pf.Via.Block()
+	}
 	okArg, whyArg := false, "ParseLine's argument is not strings.Trim(<read result>, \"\\r\\n\")"
 	if tr, ok := arg.(*ssa.Call); ok && calleeName(&tr.Call) == "strings.Trim" {
 		if cut, ok := constString(tr.Call.Args[1]); ok && (cut == "\r\n" || cut == "\n\r") {
@@ -360,7 +368,10 @@ func runC01(c *Ctx) {
 					if n == "(*bufio.Reader).ReadString" || n == "(*bufio.Reader).ReadBytes" {
 						okArg, whyArg = true, "ParseLine(strings.Trim(ReadString('\\n'), \"\\r\\n\"))"
 						// no branch between the read and the parse other than the error test
-						for _, cd := range CondsAt(call.Block()) {
+						if helperConds > 0 {
+							okArg, whyArg = false, "a condition inside the per-line helper decides whether a line is parsed"
+						}
+						for _, cd := range CondsAt(condsFrom) {
 							cd2 := unwrapNot(cd)
 							isErr := false
 							if bo, ok := cd2.V.(*ssa.BinOp); ok {
